@@ -186,7 +186,10 @@ def run(ctx):
         cfgs = [c for c in ctx.corpus if not c.get("scripted")] + [tu.gen_config(ctx.rng) for _ in range(16 if ctx.quick() else 200)]
         # data with a flat-lined stretch (exactly repeated rows): a cluster made of identical windows is NOT under-populated
         cfgs += [tu.flat_config(ctx.rng) for _ in range(3 if ctx.quick() else 30)]
-        for i, c in enumerate(cfgs):
+        n_plain = len(cfgs)
+        # small-amplitude data, light penalty, regimes alike in level: NEGATIVE costs under several clusters at once
+        cfgs += tu.concentrated_configs(ctx.rng, 4 if ctx.quick() else 40)
+        for i, c in enumerate(cfgs[:n_plain]):
             if i % 3 == 2:
                 # the solver tasks of a round complete OUT OF ORDER (as with a real multi-worker pool); >= 3 clusters so
                 # that a later task can be done while an earlier one is still running
@@ -286,6 +289,8 @@ def run(ctx):
                     if cfg["joint"] and len(series) > 1:
                         tab = None        # joint boundary pricing is C07's (known finding K1)
                     if tab is not None and np.all(np.isfinite(tab)):
+                        if int(np.sum(np.sum(tab < 0, axis=1) >= 2)) > 0:
+                            ctx.count("runs_with_windows_of_negative_cost_under_several_clusters")
                         opt_cost, _ = oracles.textbook_dp_float(tab, np.array(bvals))
                         lab_final = [int(x) for x in rounds0[-1][-1]["out"].point_labels]
                         got_cost = oracles.path_cost_float(tab, bvals, lab_final)
